@@ -341,6 +341,21 @@ impl<B> Call<WithBody, B> {
         Ok((input_used, output_used))
     }
 
+    /// Proceed to receiving a response without sending the body.
+    ///
+    /// Used when the server rejected an `Expect: 100-continue` request.
+    pub(crate) fn into_receive_skip_body(self) -> Call<RecvResponse, B> {
+        Call {
+            request: self.request,
+            analyzed: self.analyzed,
+            state: BodyState {
+                phase: Phase::RecvResponse,
+                ..self.state
+            },
+            _ph: PhantomData,
+        }
+    }
+
     pub(crate) fn consume_direct_write(&mut self, amount: usize) -> Result<(), Error> {
         if let Some(left) = self.state.writer.left_to_send() {
             if amount as u64 > left {
